@@ -1,6 +1,7 @@
 import AM.Spec.Tracker
 import AM.Proofs.C01Latest
 import AM.Proofs.C04Spec
+import AM.Proofs.C14Spec
 /-! C01, the judge and the theorem meet: the executable clause `Spec.Tracker.specLatest` (a superseded login
 never lends its identity) holds of the model's own observation for EVERY history and every write oracle. -/
 namespace AM.C01S
@@ -247,5 +248,10 @@ theorem latest_spec_holds (failAt : Option Nat) (h : List Op) :
           have : ({ ev := (toAuditEvent q.1.login q.1.ev).1, aid := q.1.ev.ses, ts := (toAuditEvent q.1.login q.1.ev).2.2, idx := q.2 } : ObsAction).identity = identOf jl.2 := by
             rw [hl]; rfl
           simp [this]
+
+/-- C01's first sentence, for EVERY history and write oracle: the identity content of an emitted event is, as a whole,
+that of one delivered login (`Spec.Tracker.specWholeIdentity`, part of C01's judge; proved in `C14Spec`) -/
+theorem whole_identity_spec_holds (failAt : Option Nat) (h : List Op) :
+    specWholeIdentity h (modelObs failAt h).1 = none := AM.C14S.whole_identity_spec_holds failAt h
 
 end AM.C01S
